@@ -1,4 +1,5 @@
 """C12 - splitters and samplers return index sets with the promised set structure (DESIGN 3, C12)."""
+import re
 import sympy as sp
 
 from ..cfg import must_dataflow
@@ -84,73 +85,125 @@ def ctor_size(f, name, cv):
     return cv.conv(init["c"][0]), v[0]
 
 
+def splitter_roles(F, f):
+    """names of the variables playing each role in a splitter's split(): found by structure, not by spelling"""
+    roles = {"samples": f.params[0]["n"]}
+    for v in f.nodes():
+        if v["k"] == "var" and v.get("c"):
+            pn = parameter_name(v["c"][0])
+            if pn == "splitter::folds":
+                roles["folds"] = v["n"]
+            elif pn == "splitter::seed":
+                roles["seed"] = v["n"]
+            elif pn == "splitter::random::train_per":
+                roles["train_perc"] = v["n"]
+    loops = [x for x in f.nodes() if x["k"] == "for"]
+    if len(loops) == 1 and "init" in loops[0]["r"]:
+        init = loops[0]["c"][loops[0]["r"].index("init")]
+        lv = [x for x in walk(init) if x["k"] == "var"]
+        if len(lv) == 1:
+            roles["fold"] = lv[0]["n"]
+        roles["loop"] = loops[0]
+    em = [c for c in f.calls(lambda x: callee(x).endswith("::emplace_back"))]
+    if len(em) == 1 and len(args(em[0])) == 2:
+        names = []
+        for a in args(em[0]):
+            a0 = skip(a)
+            inner = args(a0)[0] if a0["k"] == "call" and callee(a0) == "std::move" and args(a0) else a0
+            d = ref_decl(inner)
+            var, _ = find_var(f, d) if d is not None else (None, None)
+            names.append(var["n"] if var is not None else None)
+        roles["first"], roles["second"] = names
+        roles["emplace"] = em[0]
+    for v in f.nodes():
+        if v["k"] == "var" and v.get("c") and pp(v["c"][0]) == "%s.vector()" % roles["samples"]:
+            roles["world"] = v["n"]
+    missing = [k for k in ("folds", "seed", "fold", "first", "second") if not roles.get(k)]
+    if missing:
+        raise AnalysisBroken("%s: cannot identify the variables playing the roles %s (the function no longer has the shape the rule was written for)" % (f.qn, missing))
+    return roles
+
+
 def rule_kfold(F, R):
     f = F.one("nano::kfold_splitter_t::split", "src/splitter/kfold.cpp")
     inst = "kfold"
+    ro = splitter_roles(F, f)
+    Sn, Kn, Fn = ro["samples"], ro["folds"], ro["fold"]
     try:
-        sizes = {"samples": N, "world": N}
-        cv = conv_for(f, sizes)
-        nvalid, vvar = ctor_size(f, "valid", cv)
-        sizes["valid"] = nvalid
-        cv = conv_for(f, sizes)
-        ntrain, tvar = ctor_size(f, "train", cv)
-        sizes["train"] = ntrain
-        cv = conv_for(f, sizes)
-        world = [x for x in f.nodes() if x["k"] == "var" and x["n"] == "world" and x.get("c")]
-        R.check(len(world) == 1 and pp(world[0]["c"][0]) == "samples.vector()", "R-C12-1", inst + " source", f.loc(),
-                "all segments are cut from the one shuffled copy of the input", "`world` is no longer the shuffled input")
-        chunk = [x for x in f.nodes() if x["k"] == "var" and x["n"] == "chunk" and x.get("c")]
-        okc = len(chunk) == 1 and pp(chunk[0]["c"][0]) == "(samples.size() / folds)" and "long" in (chunk[0].get("t") or "")
-        R.check(okc, "R-C12-1", inst + " chunk", f.loc(chunk[0]) if chunk else f.loc(), "chunk = floor(n / folds) (integer division)",
-                "chunk is not the integer quotient samples.size() / folds: %s" % (pp(chunk[0]["c"][0]) if chunk else "missing"))
+        # the integer quotient n / folds: the variable initialised with `samples.size() / folds`
+        chunk = [x for x in f.nodes() if x["k"] == "var" and x.get("c") and pp(x["c"][0]) == "(%s.size() / %s)" % (Sn, Kn)]
+        okc = len(chunk) == 1 and "long" in (chunk[0].get("t") or "")
+        R.check(okc, "R-C12-1", inst + " chunk", f.loc(chunk[0]) if chunk else f.loc(), "the fold size is floor(n / folds) (integer division)",
+                "no variable holds the integer quotient %s.size() / %s (the fold size is computed differently)" % (Sn, Kn))
+        world_names = [Sn] + ([ro["world"]] if ro.get("world") else [])
+        sizes = {Sn: N}
+        if ro.get("world"):
+            sizes[ro["world"]] = N
+        subst = {chunk[0]["d"]: Q} if chunk else {}
+
+        def mkconv():
+            atoms = {"%s.size()" % k: v for k, v in sizes.items()}
+            return kalg.Conv(f, atoms=atoms, funcs={"nano::idiv": lambda a, b: IDIV(a, b)}, positive=(Kn, Fn), subst=subst)
+        # the two index sets, by the position they take in the stored pair
+        A, B = ro["first"], ro["second"]
+        for nm in (A, B):
+            try:
+                sizes[nm], _ = ctor_size(f, nm, mkconv())
+            except OutOfFragment:
+                pass
+        # sizes may depend on each other (train(n - valid.size())): second pass
+        for nm in (A, B):
+            sizes[nm], _ = ctor_size(f, nm, mkconv())
+        cv = mkconv()
         segs = []
         for x in f.nodes():
             a = assignment(x)
             if not a or a[2] != "=":
                 continue
             l, r = segment_of(a[0]), segment_of(a[1])
-            if l and r and l[0] in ("valid", "train"):
+            if l and r and l[0] in (A, B):
                 segs.append((l, r, x))
         if len(segs) != 3:
-            R.bad("R-C12-1", inst + " segments", f.loc(), "expected 3 segment copies (valid, train head, train tail), found %d" % len(segs))
+            R.bad("R-C12-1", inst + " segments", f.loc(), "expected 3 segment copies (validation fold, training head, training tail), found %d" % len(segs))
             return
-        fold, folds = cv.symbol("fold"), cv.symbol("folds")
+        fold, folds = cv.symbol(Fn), cv.symbol(Kn)
 
         def ev(node, default):
             return default if node is None else cv.conv(node)
         pieces = []
         for (ln, lb, ll), (rn, rb, rl), x in segs:
-            dsize = sizes[ln]
-            pieces.append(dict(dst=ln, db=ev(lb, sp.Integer(0)), dl=ev(ll, dsize), src=rn, sb=ev(rb, sp.Integer(0)), sl=ev(rl, sizes.get(rn, N)), node=x))
+            rn0 = rn.replace(".vector()", "")
+            pieces.append(dict(dst=ln, db=ev(lb, sp.Integer(0)), dl=ev(ll, sizes[ln]), src=rn0, sb=ev(rb, sp.Integer(0)), sl=ev(rl, sizes.get(rn0, N)), node=x))
+        # roles: the set written by one copy is the validation fold, the one written by two is the training set
+        cnt = {nm: len([p_ for p_ in pieces if p_["dst"] == nm]) for nm in (A, B)}
+        if sorted(cnt.values()) != [1, 2]:
+            R.bad("R-C12-1", inst + " segments", f.loc(), "the two index sets are not filled by one and two segment copies: %s" % cnt)
+            return
+        VALID = [nm for nm in (A, B) if cnt[nm] == 1][0]
+        TRAIN = [nm for nm in (A, B) if cnt[nm] == 2][0]
+        nvalid, ntrain = sizes[VALID], sizes[TRAIN]
+        v0 = [p_ for p_ in pieces if p_["dst"] == VALID][0]
+        vb = v0["sb"]
+        ve = v0["sb"] + v0["sl"]
         ok, why = True, ""
-        vb = cv.conv([v for v in f.nodes() if v["k"] == "var" and v["n"] == "valid_begin"][0]["c"][0])
-        ve = cv.conv([v for v in f.nodes() if v["k"] == "var" and v["n"] == "valid_end"][0]["c"][0])
-        t = sym("t", positive=True)
         t = sp.Symbol("t", integer=True, positive=True)
         for case, fval in (("last fold", folds - 1), ("fold f < k-1", folds - 1 - t)):
             def S(e):
                 r_ = sp.simplify(sp.sympify(e).subs(fold, fval))
                 if r_.atoms(sp.Piecewise):
-                    r_ = sp.piecewise_fold(r_)
-                    r_ = sp.simplify(r_)
+                    r_ = sp.simplify(sp.piecewise_fold(r_))
                 if r_.atoms(sp.Piecewise):
-                    raise OutOfFragment("cannot decide which branch of valid_end is taken for the %s: %s" % (case, r_))
+                    raise OutOfFragment("cannot decide which branch of the fold boundary is taken for the %s: %s" % (case, r_))
                 return r_
             ve_b, vb_b = S(ve), S(vb)
-            val = [p for p in pieces if p["dst"] == "valid"]
-            tr = sorted([p for p in pieces if p["dst"] == "train"], key=lambda p: 0 if zero(S(p["db"])) else 1)
-            if len(val) != 1 or len(tr) != 2:
-                ok, why = False, "segments do not form valid + two train parts"
-                break
-            v0 = val[0]
+            tr = sorted([p_ for p_ in pieces if p_["dst"] == TRAIN], key=lambda p_: 0 if zero(S(p_["db"])) else 1)
             checks = [
-                (all(p["src"] == "world" for p in pieces), "a segment is not cut from the shuffled input"),
+                (all(p_["src"] in world_names for p_ in pieces), "a segment is not cut from the shuffled input"),
                 (zero(S(v0["sl"]) - S(v0["dl"])) and zero(S(v0["db"])) and zero(S(v0["dl"]) - S(nvalid)), "validation copy: source and destination lengths differ"),
-                (zero(S(v0["sb"]) - vb_b) and zero(S(v0["sb"] + v0["sl"]) - ve_b), "validation fold is not [valid_begin, valid_end)"),
-                (zero(S(tr[0]["db"])) and zero(S(tr[0]["sb"])) and zero(S(tr[0]["dl"] - tr[0]["sl"])) and zero(S(tr[0]["sl"]) - vb_b), "training head is not [0, valid_begin)"),
+                (zero(S(tr[0]["db"])) and zero(S(tr[0]["sb"])) and zero(S(tr[0]["dl"] - tr[0]["sl"])) and zero(S(tr[0]["sl"]) - vb_b), "training head is not [0, fold begin)"),
                 (zero(S(tr[1]["db"]) - S(tr[0]["db"] + tr[0]["dl"])), "training tail does not start where the head ends"),
                 (zero(S(tr[1]["dl"] - tr[1]["sl"])), "training tail: source and destination lengths differ"),
-                (zero(S(tr[1]["sb"]) - ve_b), "training tail does not start at valid_end"),
+                (zero(S(tr[1]["sb"]) - ve_b), "training tail does not start at the end of the validation fold"),
                 (zero(S(tr[1]["sb"] + tr[1]["sl"]) - N), "training tail does not end at n"),
                 (zero(S(tr[1]["db"] + tr[1]["dl"]) - S(ntrain)), "training parts do not fill the training set"),
                 (zero(S(ntrain) + S(nvalid) - N), "|train| + |valid| != n"),
@@ -166,24 +219,24 @@ def rule_kfold(F, R):
                     ok, why = False, "the last fold ends at %s, not at n: the remaining samples are in no validation fold" % ve_b
                     break
             else:
-                nxt = sp.simplify(vb.subs(fold, fval + 1))
+                nxt = sp.simplify(sp.sympify(vb).subs(fold, fval + 1))
+                if nxt.atoms(sp.Piecewise):
+                    nxt = sp.simplify(sp.piecewise_fold(nxt))
                 if not zero(nxt - ve_b):
                     ok, why = False, "fold f+1 does not start where fold f ends"
                     break
                 slack = sp.simplify(sp.expand((N - ve_b).subs(N, folds * Q + REM)))
                 if not (slack.is_nonnegative or sp.simplify(sp.expand(slack)).is_nonnegative):
-                    ok, why = False, "valid_end can exceed n for a non-last fold (n - valid_end = %s)" % slack
+                    ok, why = False, "the fold can end beyond n for a non-last fold (n - end = %s)" % slack
                     break
-        if ok and not zero(vb.subs(fold, 0)):
+        if ok and not zero(sp.simplify(sp.sympify(vb).subs(fold, 0))):
             ok, why = False, "the first fold does not start at 0"
         R.check(ok, "R-C12-1", inst + " tiling", f.loc(segs[0][2]), "valid = [f*chunk, end_f), train = [0, f*chunk) ++ [end_f, n); folds adjacent, first at 0, last ends at n",
                 "k-fold segments do not partition the input: " + why)
-        em = [c for c in f.calls(lambda x: callee(x).endswith("::emplace_back"))]
-        oke = len(em) == 1 and [pp(a) for a in args(em[0])] == ["move(train)", "move(valid)"]
-        R.check(oke, "R-C12-1", inst + " pair order", f.loc(em[0]) if em else f.loc(), "stored as (train, valid)", "split is not stored as (train, valid)")
-        # loop covers all folds
-        loops = [x for x in f.nodes() if x["k"] == "for"]
-        okl = len(loops) == 1 and pp(loops[0]["c"][loops[0]["r"].index("cond")]) == "(fold < folds)" and pp(loops[0]["c"][loops[0]["r"].index("inc")]) == "(++fold)"
+        R.check(TRAIN == A and VALID == B, "R-C12-1", inst + " pair order", f.loc(ro["emplace"]), "stored as (train, valid)", "the pair is stored as (validation, training)")
+        lp = ro["loop"]
+        okl = pp(lp["c"][lp["r"].index("cond")]) == "(%s < %s)" % (Fn, Kn) and pp(lp["c"][lp["r"].index("inc")]) in ("(++%s)" % Fn, "(%s++)" % Fn) and \
+            pp(lp["c"][lp["r"].index("init")]).endswith("%s = 0" % Fn)
         R.check(okl, "R-C12-1", inst + " folds", f.loc(), "folds 0..k-1 are produced", "the fold loop is not fold = 0..folds-1")
     except OutOfFragment as e:
         R.incomplete("R-C12-1", inst, f.loc(), str(e))
@@ -192,46 +245,46 @@ def rule_kfold(F, R):
 def rule_random(F, R):
     f = F.one("nano::random_splitter_t::split", "src/splitter/random.cpp")
     inst = "random"
+    ro = splitter_roles(F, f)
+    Sn = ro["samples"]
+    if not ro.get("train_perc"):
+        raise AnalysisBroken("random splitter: no variable is read from the `splitter::random::train_per` parameter")
     try:
-        sizes = {"samples": N}
-        cv = conv_for(f, sizes)
-        nvalid, _ = ctor_size(f, "valid", cv)
-        ntrain, _ = ctor_size(f, "train", cv)
-        p = cv.symbol("train_perc")
-        R.check(zero(ntrain - IDIV(p * N, 100)), "R-C12-2", inst + " train size", f.loc(), "train = idiv(train_perc * n, 100)", "train size is %s" % ntrain)
-        R.check(zero(ntrain + nvalid - N), "R-C12-2", inst + " sizes", f.loc(), "|train| + |valid| = n", "|train| + |valid| = %s" % sp.simplify(ntrain + nvalid))
-        tp = [v for v in f.nodes() if v["k"] == "var" and v["n"] == "train_perc" and v.get("c")]
-        R.check(len(tp) == 1 and parameter_name(tp[0]["c"][0]) == "splitter::random::train_per", "R-C12-2", inst + " percentage", f.loc(),
-                "the percentage is the `splitter::random::train_per` parameter", "train percentage no longer read from its parameter")
+        sizes = {Sn: N}
+        atoms = {"%s.size()" % Sn: N}
+        cv = kalg.Conv(f, atoms=atoms, funcs={"nano::idiv": lambda a, b: IDIV(a, b)}, positive=(ro["train_perc"],))
+        A, B = ro["first"], ro["second"]
+        nA, _ = ctor_size(f, A, cv)
+        nB, _ = ctor_size(f, B, cv)
+        p = cv.symbol(ro["train_perc"])
+        R.check(zero(nA - IDIV(p * N, 100)), "R-C12-2", inst + " train size", f.loc(), "the first set of the pair (training) has idiv(train_perc * n, 100) elements", "training size is %s" % nA)
+        R.check(zero(nA + nB - N), "R-C12-2", inst + " sizes", f.loc(), "|train| + |valid| = n", "|train| + |valid| = %s" % sp.simplify(nA + nB))
         segs = {}
         for x in f.nodes():
             a = assignment(x)
             if a and a[2] == "=":
                 l, r = segment_of(a[0]), segment_of(a[1])
-                if l and r and l[0] in ("valid", "train") and l[1] is None:
+                if l and r and l[0] in (A, B) and l[1] is None:
                     segs[l[0]] = (r, x)
-        ok = set(segs) == {"valid", "train"}
-        why = "expected one copy into each of train and valid"
+        ok = set(segs) == {A, B}
+        why = "expected one copy into each of the two index sets"
         if ok:
-            (tn, tb, tl), _ = segs["train"]
-            (vn, vb, vl), _ = segs["valid"]
+            (tn, tb, tl), _ = segs[A]
+            (vn, vb, vl), _ = segs[B]
             tb, tl, vb, vl = (cv.conv(x) for x in (tb, tl, vb, vl))
-            checks = [(tn == "samples" and vn == "samples", "segments are not cut from the shuffled input"),
-                      (zero(tb), "training part does not start at 0"), (zero(tl - ntrain), "training segment length != |train|"),
-                      (zero(vb - (tb + tl)), "validation part does not start where the training part ends"), (zero(vl - nvalid), "validation segment length != |valid|"),
+            srcs = {Sn, Sn + ".vector()"} | ({ro["world"]} if ro.get("world") else set())
+            checks = [(tn.replace(".vector()", "") in srcs and vn.replace(".vector()", "") in srcs, "segments are not cut from the shuffled input"),
+                      (zero(tb), "training part does not start at 0"), (zero(tl - nA), "training segment length != |train|"),
+                      (zero(vb - (tb + tl)), "validation part does not start where the training part ends"), (zero(vl - nB), "validation segment length != |valid|"),
                       (zero(vb + vl - N), "the two parts do not cover [0, n)")]
             for c_, msg in checks:
                 if not c_:
                     ok, why = False, msg
                     break
         R.check(ok, "R-C12-2", inst + " tiling", f.loc(), "train = [0, t), valid = [t, n) of the same shuffled vector", "random split does not partition the input: " + why)
-        em = [c for c in f.calls(lambda x: callee(x).endswith("::emplace_back"))]
-        oke = len(em) == 1 and [pp(a) for a in args(em[0])] == ["move(train)", "move(valid)"]
-        R.check(oke, "R-C12-2", inst + " pair order", f.loc(), "stored as (train, valid)", "split is not stored as (train, valid)")
         # the shuffle happens inside the fold loop, before the copies
-        loops = [x for x in f.nodes() if x["k"] == "for"]
         sh = [c for c in f.calls(lambda x: callee(x) == "std::shuffle")]
-        oks = len(loops) == 1 and len(sh) == 1 and any(y is sh[0] for y in walk(loops[0])) and [pp(a) for a in args(sh[0])[:2]] == ["begin(samples)", "end(samples)"]
+        oks = len(sh) == 1 and any(y is sh[0] for y in walk(ro["loop"])) and [pp(a) for a in args(sh[0])[:2]] == ["begin(%s)" % Sn, "end(%s)" % Sn]
         R.check(oks, "R-C12-2", inst + " reshuffle", f.loc(), "the whole input is reshuffled for every fold", "the per-fold shuffle of the whole input is missing")
     except OutOfFragment as e:
         R.incomplete("R-C12-2", inst, f.loc(), str(e))
@@ -244,8 +297,8 @@ def rule_random(F, R):
             a, b = g.params[0]["n"], g.params[1]["n"]
             try:
                 e = kalg.Conv(g, inline=False).conv(rets[0]["c"][0])
-                A, B = sym(a), sym(b)
-                ok = zero(e - (A + B / 2) / B)
+                A_, B_ = sym(a), sym(b)
+                ok = zero(e - (A_ + B_ / 2) / B_)
             except (OutOfFragment, IndexError):
                 ok = False
             R.check(ok, "R-C12-2", "idiv@" + g.key[:60], g.loc(), "idiv(a, b) = (a + b/2) / b (round half up for non-negative operands)", "idiv is no longer (a + b/2) / b")
@@ -287,23 +340,35 @@ def sorted_rule(F, R, f, names, sinks, inst):
         R.check(not missing, "R-C12-3", inst, f.loc(s), "%s sorted after the last write" % ", ".join(needed), "%s can reach `%s` unsorted" % (", ".join(missing), pp(s)[:60]))
 
 
+def returned_var(f):
+    """the local variable every `return` of f hands back (None if the returns differ or return something else)"""
+    rets = [x for x in f.nodes() if x["k"] == "return" and x.get("c")]
+    ds = {ref_decl(r["c"][0]) for r in rets}
+    if len(ds) != 1 or None in ds:
+        return None, rets
+    var, _ = find_var(f, ds.pop())
+    return var, rets
+
+
 def rule_sorted(F, R):
     n = 0
     for qn, file in (("nano::kfold_splitter_t::split", "src/splitter/kfold.cpp"), ("nano::random_splitter_t::split", "src/splitter/random.cpp")):
         f = F.one(qn, file)
-        em = [c for c in f.calls(lambda x: callee(x).endswith("::emplace_back"))]
-        sorted_rule(F, R, f, ("train", "valid"), [(c, ("train", "valid")) for c in em], qn.split("::")[1])
-        n += len(em)
+        ro = splitter_roles(F, f)
+        names = (ro["first"], ro["second"])
+        sorted_rule(F, R, f, names, [(ro["emplace"], names)], qn.split("::")[1])
+        n += 1
     for f in F.in_file("src/core/sampling.cpp"):
-        if f.is_lambda or not f.name.startswith("sample_with"):
+        if f.is_lambda or not f.name.startswith("sample_with") or not ("linear_congruential_engine" in (f.params[-1].get("t") or "")):
             continue
-        sel = [v for v in f.nodes() if v["k"] == "var" and v["n"] == "selection"]
-        if not sel:
+        var, rets = returned_var(f)
+        inst = f.name + "/%d@" % len(f.params) + f.loc()
+        if var is None:
+            # some return does not hand back the one local selection: it must still be a sorted range
+            R.check(False, "R-C12-3", inst, f.loc(), "", "not every return hands back the (sorted) selection: %s" % [pp(r)[:40] for r in rets])
+            n += len(rets)
             continue
-        rets = [x for x in f.nodes() if x["k"] == "return"]
-        okr = all(pp(r["c"][0]) == "selection" for r in rets)
-        R.check(okr and rets, "R-C12-3", f.name + " returns selection@" + f.loc(), f.loc(), "returns the sorted selection", "does not return `selection`")
-        sorted_rule(F, R, f, ("selection",), [(r, ("selection",)) for r in rets], f.name + "@" + f.loc())
+        sorted_rule(F, R, f, (var["n"],), [(r, (var["n"],)) for r in rets], inst)
         n += len(rets)
     R.floor("R-C12-3", n, 5, "publication points of index sets")
 
@@ -312,6 +377,7 @@ def rule_seed(F, R):
     n = 0
     for qn, file in (("nano::kfold_splitter_t::split", "src/splitter/kfold.cpp"), ("nano::random_splitter_t::split", "src/splitter/random.cpp")):
         f = F.one(qn, file)
+        ro = splitter_roles(F, f)
         rngs = [c for c in f.calls(lambda x: callee(x) == "nano::make_rng")]
         inst = qn.split("::")[1]
         ok = len(rngs) == 1
@@ -326,17 +392,13 @@ def rule_seed(F, R):
                 why = "the seed does not come from the `splitter::seed` parameter"
         R.check(ok, "R-C12-4", inst + " rng", f.loc(rngs[0]) if rngs else f.loc(), "the only random source is make_rng(parameter(splitter::seed))", why)
         n += 1
-        # every shuffle uses that engine
         for sh in f.calls(lambda x: callee(x) == "std::shuffle"):
             third = skip(args(sh)[2])
-            oks = (third["k"] == "call" and callee(third) == "nano::make_rng" and third is skip(rngs[0])) if rngs else False
+            oks = bool(rngs) and any(y is rngs[0] for y in walk(sh))
             if not oks and rngs:
                 d = ref_decl(third)
                 var, _ = find_var(f, d) if d is not None else (None, None)
-                oks = var is not None and var.get("c") and skip(var["c"][0]) is skip(rngs[0])
-                if not oks and var is not None and var.get("c"):
-                    oks = any(y is rngs[0] for y in walk(var["c"][0]))
-            oks = oks or (rngs and any(y is rngs[0] for y in walk(sh)))
+                oks = var is not None and var.get("c") and any(y is rngs[0] for y in walk(var["c"][0]))
             R.check(bool(oks), "R-C12-4", inst + " shuffle", f.loc(sh), "shuffle draws from the seeded engine", "shuffle uses another random source")
         other = [c for c in f.calls(lambda x: callee(x) in ("std::rand", "std::random_device::operator()", "std::random_device::random_device"))]
         R.check(not other, "R-C12-4", inst + " no other randomness", f.loc(), "no unseeded random source", "unseeded random source used: %s" % [callee(c) for c in other])
@@ -359,21 +421,26 @@ def rule_samplers(F, R):
             R.check(bool(ok), "R-C12-5", inst, f.loc(), "forwards (%s) unchanged to the engine overload" % ", ".join(p["n"] for p in f.params), "arguments are not forwarded unchanged")
             n += 1
             continue
-        samples, count = f.params[0]["n"], [p["n"] for p in f.params if p["n"] == "count"]
+        samples = f.params[0]["n"]
+        count = f.params[-2]["n"]
+        var, rets = returned_var(f)
+        if var is None:
+            continue          # reported by R-C12-3
+        sel = var["n"]
         if f.name == "sample_with_replacement":
             weighted = len(f.params) == 4
             gen = [c for c in f.calls(lambda x: callee(x) == "std::generate")]
-            sel = [v for v in f.nodes() if v["k"] == "var" and v["n"] == "selection" and v.get("c")]
-            ok = len(gen) == 1 and len(sel) == 1 and pp(sel[0]["c"][0]) == "tensor_t(count)" and [pp(a) for a in args(gen[0])[:2]] == ["begin(selection)", "end(selection)"]
-            why = "selection is not `count` generated elements"
+            ok = len(gen) == 1 and var.get("c") and pp(var["c"][0]) == "tensor_t(%s)" % count and [pp(a) for a in args(gen[0])[:2]] == ["begin(%s)" % sel, "end(%s)" % sel]
+            why = "the result is not `count` generated elements"
             if ok:
                 lam = skip(args(gen[0])[2])
                 g = F.by_lid.get(lam.get("lid"), [None])[0] if lam["k"] == "lambda" else None
-                rets = [x for x in g.nodes() if x["k"] == "return"] if g else []
-                dist = "wdist" if weighted else "udist"
-                ok = len(rets) == 1 and pp(rets[0]["c"][0]) == "%s(%s(%s))" % (samples, dist, rng_param)
-                why = "drawn element is not %s(%s(%s))" % (samples, dist, rng_param)
+                lrets = [x for x in g.nodes() if x["k"] == "return"] if g else []
+                m = re.fullmatch(r"%s\((\w+)\(%s\)\)" % (re.escape(samples), re.escape(rng_param)), pp(lrets[0]["c"][0])) if len(lrets) == 1 else None
+                ok = m is not None
+                why = "a drawn element is not %s(dist(%s))" % (samples, rng_param)
                 if ok:
+                    dist = m.group(1)
                     dv = [v for v in f.nodes() if v["k"] == "var" and v["n"] == dist and v.get("c")]
                     if weighted:
                         w = f.params[1]["n"]
@@ -382,22 +449,20 @@ def rule_samplers(F, R):
                     else:
                         ok = len(dv) == 1 and pp(dv[0]["c"][0]).startswith("make_udist") and [pp(a) for a in args(skip(dv[0]["c"][0]))] == ["0", "(%s.size() - 1)" % samples]
                         why = "positions are not uniform over [0, size-1]"
-            R.check(ok, "R-C12-5", inst, f.loc(), "count draws of samples(dist(rng)) over exactly the input positions", "sampling with replacement: " + why)
+            R.check(bool(ok), "R-C12-5", inst, f.loc(), "count draws of samples(dist(rng)) over exactly the input positions", "sampling with replacement: " + why)
             n += 1
         elif f.name == "sample_without_replacement":
             cp = [v for v in f.nodes() if v["k"] == "var" and v.get("c") and "tensor_vector_storage_t" in (v.get("t") or "") and ref_decl(unwrap_view(v["c"][0])) == f.params[0]["d"]]
             sh = [c for c in f.calls(lambda x: callee(x) == "std::shuffle")]
-            sel = [v for v in f.nodes() if v["k"] == "var" and v["n"] == "selection" and v.get("c")]
-            ok = len(cp) == 1 and len(sh) == 1 and len(sel) == 1
+            ok = len(cp) == 1 and len(sh) == 1 and bool(var.get("c"))
             why = "expected a private copy, one shuffle and one slice"
             if ok:
                 c = cp[0]["n"]
-                ok = [pp(a) for a in args(sh[0])] == ["begin(%s)" % c, "end(%s)" % c, rng_param] and pp(sel[0]["c"][0]) == "%s.slice(0, count)" % c
+                ok = [pp(a) for a in args(sh[0])] == ["begin(%s)" % c, "end(%s)" % c, rng_param] and pp(var["c"][0]) == "%s.slice(0, %s)" % (c, count)
                 why = "the selection is not the first `count` elements of the shuffled private copy"
                 if ok:
-                    # order: shuffle before slice use (slice is a view; sort happens after the shuffle)
                     cfg = f.cfg
-                    ws, wl = cfg.where_enclosing(sh[0]), cfg.where_enclosing(sel[0])
+                    ws, wl = cfg.where_enclosing(sh[0]), cfg.where_enclosing(var)
                     ok = ws is not None and wl is not None and (ws[0] != wl[0] and cfg.dominates(ws, wl) or (ws[0] == wl[0] and ws[1] < wl[1]))
                     why = "the copy is shuffled after the selection has been taken"
             R.check(bool(ok), "R-C12-5", inst, f.loc(), "shuffle a private copy, take [0, count), sort", "sampling without replacement: " + why)
@@ -407,6 +472,7 @@ def rule_samplers(F, R):
 
 def rule_gboost_sampler(F, R):
     f = F.one("nano::gboost::sampler_t::sample", "src/gboost/sampler.cpp")
+    # the number of draws: the local handed to the samplers as `count`
     n = 0
     for x in f.nodes():
         a = assignment(x)
@@ -420,7 +486,7 @@ def rule_gboost_sampler(F, R):
         if d is None:
             R.bad("R-C12-6", inst, f.loc(x), "weight position is not a plain loop index: %s" % pp(a[0]))
             continue
-        # every use of the position index on the right-hand side goes through m_samples(i): weight i belongs to sample m_samples(i)
+        iname = pp(idx)
         bad = []
         for y in walk(a[1]):
             if y["k"] == "ref" and y.get("d") == d:
@@ -432,19 +498,28 @@ def rule_gboost_sampler(F, R):
         uses = [y for y in walk(a[1]) if y["k"] == "ref" and y.get("d") == d]
         R.check(bool(uses) and not bad, "R-C12-6", inst, f.loc(x), "the weight at position i is computed from sample m_samples(i)",
                 "the weight at position i is computed from sample `i` rather than `m_samples(i)` (%s): weights and samples are misaligned for any subset of samples" % bad[:2])
-        # loop covers all positions
         lp = [l for l in f.ancestors(x) if l["k"] == "for"]
-        okl = bool(lp) and pp(lp[0]["c"][lp[0]["r"].index("cond")]) == "(i < size)" and "size = m_samples.size()" in pp(lp[0]["c"][lp[0]["r"].index("init")]).replace("long ", "")
-        if not okl and lp:
-            okl = pp(lp[0]["c"][lp[0]["r"].index("cond")]) in ("(i < m_samples.size())",)
+        okl = False
+        if lp:
+            cond = pp(lp[0]["c"][lp[0]["r"].index("cond")])
+            init = pp(lp[0]["c"][lp[0]["r"].index("init")])
+            m = re.fullmatch(r"\(%s < (\w+)\)" % re.escape(iname), cond)
+            okl = cond == "(%s < m_samples.size())" % iname or (m is not None and "%s = m_samples.size()" % m.group(1) in init)
+            okl = okl and "%s = 0" % iname in init
         R.check(okl, "R-C12-6", inst + " coverage", f.loc(x), "weights are recomputed for every position", "the weight loop does not cover all positions: %s" % (pp(lp[0]["c"][lp[0]["r"].index("cond")]) if lp else "no loop"))
     R.floor("R-C12-6", n, 2, "weight assignments in the gboost sampler")
+    counts = set()
     for c in f.calls(lambda x: callee(x).startswith("nano::sample_with")):
         a = [pp(z) for z in args(c)]
-        ok = a[0] == "m_samples" and a[-1] == "m_rng" and a[-2] == "count" and (len(a) == 3 or a[1] == "m_weights")
+        counts.add(a[-2])
+        ok = a[0] == "m_samples" and a[-1] == "m_rng" and ref_decl(args(c)[-2]) is not None and (len(a) == 3 or a[1] == "m_weights")
         R.check(ok, "R-C12-6", "call@%s" % f.loc(c), f.loc(c), "samples, (weights,) count and the seeded engine are passed together", "sampler call arguments changed: %s" % a)
+    R.check(len(counts) == 1, "R-C12-6", "one count", f.loc(), "all sampling modes draw the same number of samples", "the sampling modes use different counts: %s" % sorted(counts))
     ctor = [g for g in F.in_file("src/gboost/sampler.cpp") if g.raw.get("ctor")]
-    okr = any(any(i.get("n") == "m_rng" and "make_rng" in pp(i) and "seed" in pp(i) for i in g.inits) for g in ctor)
+    okr = False
+    for g in ctor:
+        sp_ = [p_["n"] for p_ in g.params if "unsigned long" in (p_.get("t") or "")]
+        okr = okr or any(i.get("n") == "m_rng" and any(pp(i).replace(" ", "").find("make_rng(optional(%s))" % s_) >= 0 or "make_rng(%s)" % s_ in pp(i) for s_ in sp_) for i in g.inits)
     R.check(okr, "R-C12-6", "engine", ctor[0].loc() if ctor else f.loc(), "the engine is seeded from the constructor's seed", "m_rng is not make_rng(seed)")
 
 
@@ -453,11 +528,19 @@ def rule_ball(F, R):
     if len(fs) != 1:
         raise AnalysisBroken("sample_from_ball(x0, radius, x, rng) not found")
     f = fs[0]
-    fin = [x for x in f.nodes() if assignment(x) and pp(assignment(x)[0]) == "x.array()"]
-    zv = [v for v in f.nodes() if v["k"] == "var" and v["n"] == "z" and v.get("c")]
-    if len(fin) != 1 or len(zv) != 1:
-        R.bad("R-C12-7", "ball", f.loc(), "final assignment / scale variable not found")
-        return
+    x0n, radn, xn, rngn = (p_["n"] for p_ in f.params)
+    fin = [x for x in f.nodes() if assignment(x) and pp(assignment(x)[0]) == "%s.array()" % xn and assignment(x)[2] == "="]
+    if len(fin) != 1:
+        raise AnalysisBroken("sample_from_ball: the final assignment to the output array was not found")
+    # the scale: the one local of the final expression that is drawn from a distribution
+    zv = []
+    for y in walk(assignment(fin[0])[1]):
+        if y["k"] == "ref" and y.get("dk") == "var":
+            v, _ = find_var(f, y["d"])
+            if v is not None and v.get("c") and rngn in pp(v["c"][0]) and v not in zv:
+                zv.append(v)
+    if len(zv) != 1:
+        raise AnalysisBroken("sample_from_ball: cannot identify the random scale in the final expression")
     k = 3
     it = Interp(F, f, n=k)
     X = [sym("x%d" % i) for i in range(k)]
@@ -475,7 +558,6 @@ def rule_ball(F, R):
         if ok:
             R.ok("R-C12-7", "ball radius", f.loc(fin[0]), "|x - x0| = radius * z")
         else:
-            # another normalisation: a violation needs a concrete direction that lands outside the ball for z -> 1
             import random
             rnd = random.Random(R.seed)
             ratio = sp.simplify(dist2 / (rad * z) ** 2)
@@ -497,17 +579,30 @@ def rule_ball(F, R):
                 R.incomplete("R-C12-7", "ball radius", f.loc(fin[0]), "|x - x0| is not radius*z and no direction leaving the ball was found: cannot decide (%s)" % ratio)
     except OutOfFragment as e:
         R.incomplete("R-C12-7", "ball radius", f.loc(fin[0]), str(e))
-    init = pp(zv[0]["c"][0])
-    sd = [v for v in f.nodes() if v["k"] == "var" and v["n"] == "scale_dist" and v.get("c")]
-    okz = init == "pow(scale_dist(rng), (1 / cast<double>(n)))" and len(sd) == 1 and pp(sd[0]["c"][0]) == "uniform_real_distribution(0, 1)"
-    nv = [v for v in f.nodes() if v["k"] == "var" and v["n"] == "n" and v.get("c")]
-    okz = okz and len(nv) == 1 and pp(nv[0]["c"][0]) == "x0.size()"
-    R.check(okz, "R-C12-7", "ball scale", f.loc(zv[0]), "z = U^(1/n) with U uniform in [0, 1): 0 <= z < 1", "the scale is no longer U(0,1)^(1/n): %s" % init)
-    # wrappers forward
+    init = skip(zv[0]["c"][0])
+    okz = False
+    detail = pp(init)
+    if init["k"] == "call" and callee(init) in ("pow", "std::pow") and len(args(init)) == 2:
+        base, expo = args(init)
+        b0 = skip(base)
+        dist = None
+        if b0["k"] == "call" and b0.get("op") == "()" and pp(b0["c"][1]) == rngn:
+            dv, _ = find_var(f, ref_decl(b0["c"][0])) if ref_decl(b0["c"][0]) is not None else (None, None)
+            dist = pp(dv["c"][0]) if dv is not None and dv.get("c") else None
+        e0 = pp(expo)
+        m = re.fullmatch(r"\(1 / cast<double>\((\w+)\)\)", e0)
+        nv, _ = (None, None)
+        okn = False
+        if m:
+            for v in f.nodes():
+                if v["k"] == "var" and v["n"] == m.group(1) and v.get("c") and pp(v["c"][0]) == "%s.size()" % x0n:
+                    okn = True
+        okz = dist == "uniform_real_distribution(0, 1)" and okn
+    R.check(okz, "R-C12-7", "ball scale", f.loc(zv[0]), "z = U^(1/n) with U uniform in [0, 1): 0 <= z < 1", "the scale is no longer U(0,1)^(1/n): %s" % detail)
     for g in F.in_file("src/core/sampling.cpp"):
         if g.name == "sample_from_ball" and g is not f:
             c = [c for c in g.calls(lambda x: callee(x) == "nano::sample_from_ball")]
-            ok = len(c) == 1 and [pp(a) for a in args(c[0])][:2] == ["x0", "radius"]
+            ok = len(c) == 1 and [pp(a) for a in args(c[0])][:2] == [g.params[0]["n"], g.params[1]["n"]]
             R.check(ok, "R-C12-7", "ball wrapper@" + g.loc(), g.loc(), "forwards (x0, radius) unchanged", "wrapper changes the centre or radius")
 
 
